@@ -135,6 +135,7 @@ void perturb_a64_operand(Operand_& op, Rng& r, const Labels& ls, const CodeHolde
   }
   else if (op.is_mem()) {
     a64::Mem& m = op.as<a64::Mem>();
+    if (m.has_base_label() && r.chance(1, 6)) { op = a64::ptr(uint64_t(r.chance(1, 2) ? r.below(64) : r.next())); return; }   // an absolute address instead of a label
     if (m.has_base_label()) { Label l = select_label(ls, r.chance(1, 2) ? int64_t(r.below(8)) : -int64_t(1 + r.below(8)), code); m.set_base_id(l.id()); }
     else if (m.has_base_reg() && r.chance(1, 2)) m.set_base_id(perturbed_id(r));
     if (m.has_index() && r.chance(1, 2)) m.set_index_id(perturbed_id(r));
@@ -180,6 +181,7 @@ bool a64_known_invalid(uint32_t inst_id, const Operand_* o, const Operand_* form
     }
     else if (o[k].is_mem()) {
       const a64::Mem& m = o[k].as<a64::Mem>();
+      if (!m.has_base_reg() && !m.has_base_label()) { *why = "memory operand without base: AArch64 has no absolute addressing"; return true; }
       if (m.has_base_reg() && m.base_id() > 31) { *why = "memory base register id out of range"; return true; }
       if (m.has_index() && m.index_id() > 31 && m.index_id() != 63) { *why = "memory index register id out of range"; return true; }
     }
@@ -246,6 +248,12 @@ bool a64_known_invalid(uint32_t inst_id, const Operand_* o, const Operand_* form
         if (imm(1) < 0 || imm(1) > 0xffff) { *why = "16-bit immediate out of range"; return true; }
         if (n == 3 && is_imm(2) && (pred(2) != 0 || imm(2) < 0 || imm(2) % 16 != 0 || imm(2) >= int64_t(gp_bits(0)))) { *why = "move-wide shift is not lsl #0/16/32/48 within the register"; return true; }
       }
+      break;
+    case I::kIdRshrn_v: case I::kIdShl_v: case I::kIdShrn_v: case I::kIdShrn2_v: case I::kIdSli_v: case I::kIdSqrshrn_v: case I::kIdSqrshrun_v: case I::kIdSqshl_v: case I::kIdSqshlu_v: case I::kIdSqshrn_v:
+    case I::kIdSqshrun_v: case I::kIdSri_v: case I::kIdSrshr_v: case I::kIdSrsra_v: case I::kIdSshll_v: case I::kIdSshr_v: case I::kIdSsra_v: case I::kIdUqrshrn_v: case I::kIdUqshl_v: case I::kIdUqshrn_v:
+    case I::kIdUrshr_v: case I::kIdUrsra_v: case I::kIdUshll_v: case I::kIdUshr_v: case I::kIdUsra_v:
+      // SIMD shifts by immediate: the amount is at most the element size (64)
+      if (n == 3 && is_imm(2) && (imm(2) < 0 || imm(2) > 64)) { *why = "SIMD shift amount beyond the largest element size"; return true; }
       break;
     case I::kIdSvc: case I::kIdHvc: case I::kIdSmc: case I::kIdBrk: case I::kIdHlt:
       if (n == 1 && is_imm(0) && (imm(0) < 0 || imm(0) > 0xffff)) { *why = "16-bit immediate out of range"; return true; }
@@ -426,7 +434,15 @@ CallResult perform(Subject& s, const gen::Program& prog, const Op& op, bool* mus
         *must_fail_out = true;
         Label l;
         if ((op.a[0] % 3) == 0) { Label first = e.new_named_label("c14_dup", SIZE_MAX, LabelType::kGlobal); if (first.is_valid()) { s.labels.made.push_back(first); *must_fail_out = false; r.err = Error::kOk; break; } l = first; }
-        else if ((op.a[0] % 3) == 1) l = e.new_named_label("c14_local", SIZE_MAX, LabelType::kLocal, 0x7ffffff0u);
+        else if ((op.a[0] % 3) == 1) {
+          // a local label needs an existing parent: the first id that does not exist yet (the id the new label itself is
+          // about to get), ids beyond it and the invalid id are all refused
+          static const uint32_t beyond[] = {0, 1, 2, 1000, 0x7ffffff0u};
+          uint32_t k = uint32_t(uint64_t(op.a[1]) % 6);
+          uint32_t parent = k == 5 ? Globals::kInvalidId : uint32_t(s.code.label_count()) + beyond[k];
+          char nm[32]; snprintf(nm, sizeof nm, "c14_local_%u", k);
+          l = e.new_named_label(nm, SIZE_MAX, LabelType::kLocal, parent);
+        }
         else { std::string big(size_t(70000), 'n'); l = e.new_named_label(big.c_str(), big.size(), LabelType::kGlobal); }
         r.err = l.is_valid() ? Error::kOk : make_error(Error::kInvalidLabelName);
         if (l.is_valid()) s.labels.made.push_back(l);
